@@ -1,6 +1,7 @@
 package executor
 
 import (
+	"fmt"
 	"os"
 
 	"github.com/klauspost/compress/snappy"
@@ -27,6 +28,22 @@ func (r *Reader) readSecondStage(bufMeta []bufferMeta) (rb []byte, err error) {
 		fp, err := os.OpenFile(file, os.O_RDONLY, readWriteAll)
 		if err != nil {
 			return nil, err
+		}
+		// An index record that points outside the file (torn or corrupted by a
+		// crash) must not be trusted: its length sizes the buffers allocated below.
+		fstat, err := fp.Stat()
+		if err != nil {
+			fp.Close()
+			return nil, err
+		}
+		for i := 0; i < len(indexBuffer)/24; i++ {
+			offset := io.ToInt64(indexBuffer[i*24+8:])
+			datalen := io.ToInt64(indexBuffer[i*24+16:])
+			if offset < 0 || datalen < 0 || offset > fstat.Size() || datalen > fstat.Size()-offset {
+				fp.Close()
+				return nil, fmt.Errorf("corrupt index record in %s: offset=%d length=%d, file size=%d",
+					file, offset, datalen, fstat.Size())
+			}
 		}
 		/*
 			Calculate how much space is needed in the results buffer
